@@ -30,7 +30,7 @@ CLAIMED = {
             "programs with declared-only variables and conditionally used undefined globals are run on every path under every "
             "instrumentation and supply configuration; TLC judges where the call fails, what value later reads see, and that the "
             "absent marker appears nowhere"),
-    "C09": ("TLA+ GenMech (token machine) |= A level: TLC enumerates histories, each replayed with real generators, TraceGen",
+    "C09": ("TLA+ GenMech (token machine) |= A level: TLC enumerates histories, each replayed with real generators, TraceGen; TraceStaged, TraceRelay on nested generators",
             "all overlay/generator histories up to a bound are enumerated by TLC, executed with real generators, and the "
             "handlers seen by the driver and the events per overlay are validated after every step"),
     "C15": ("TLA+ Parser transcription + ParserLaws (TLC exhaustive over operand substitutions) + TraceParser on real parse()",
@@ -51,7 +51,7 @@ CLAIMED = {
             "all activation/deactivation/call histories up to a bound are enumerated by TLC on the mechanism model, executed "
             "with real Probe objects and validated step by step against the A-level clauses (Receives, Silent, Quiescent, "
             "NoStaleHandlers, ActiveInstalled, refusal leaves no trace)"),
-    "C02": ("TLA+ PteraAbs + TLC trace validation of scripted-world runs",
+    "C02": ("TLA+ PteraAbs + TLC trace validation of scripted-world runs; Xform / XformStmts (M level of the rewrite) model-checked and run for real (TraceXformMech, TraceXformStmts)",
             "each real run (random binding sequences x every focus/context choice) is validated by TLC against the A-level "
             "definition of a focused probe's stream (one event per binding of the focus, context at latest values)"),
     "C03": ("TLA+ PteraAbs (Embeddings/Own/Sub) + TLC trace validation",
@@ -60,7 +60,7 @@ CLAIMED = {
     "C04": ("TLA+ PteraAbs OverrideResult + TLC trace validation",
             "stored values, later reads, call results and observers' events of overridden runs are validated by TLC against "
             "the substitution semantics (last activated non-declining override wins, RHS consumed once, declined untouched)"),
-    "C06": ("TLA+ meta-event bracket grammar in TracePtera + TLC trace validation",
+    "C06": ("TLA+ Envelope (state machine of one activation, TLC over all configurations, TraceEnvelope / TraceEnvelopePair on real activations) + meta-event bracket grammar in TracePtera / ProgSem + TLC trace validation",
             "TLC derives from each environment event the meta-events owed (#enter first, #value/#error, #endloop on every way "
             "out, #exit last) and compares them, in order, with the real deliveries"),
     "C07": ("TLA+ PteraAbs TotalRecs + TLC trace validation",
